@@ -457,6 +457,58 @@ def mutex_fair_invariant(R, F, E, CG, state_paths, cfg):
     R.floor('C01.P.fair notify-paths[%s]' % cfg, n, 2)
 
 
+def _exposing_roots(C, F, cfg, fn):
+    """the functions through which `fn` is reached from outside: itself when it is public API / a trait method /
+    uncalled, else its callers, transitively"""
+    CG = C.cg(cfg)
+    seen, work, roots = set(), [fn['path'] if fn['kind'] != 'closure' else CG.root_fn(fn['path'])], set()
+    while work:
+        q = work.pop()
+        if q in seen:
+            continue
+        seen.add(q)
+        cs = [c for c, _ in CG.callers_of(q) if c != q]
+        fq = F.fn(q) or {}
+        if not cs or fq.get('reachable') or fq.get('impl_trait'):
+            roots.add(q)
+        work.extend(cs)
+    return roots
+
+
+def _excluded_by_refill(C, F, E, cfg, fn, t):
+    """the state the mpmc refill invariant excludes (C09.R2 keeps it: with capacity > 0 no sender stays parked while
+    the buffer is empty): true when every path - of every function that exposes the site - that reaches the panic has
+    established buffer.is_empty() & a parked sender (queue seen non-empty, or a sender taken off it) & capacity() != 0"""
+    from common import eq_fact
+    hit = 0
+    for r in sorted(_exposing_roots(C, F, cfg, fn)):
+        saved = set(F.alias_fns)
+        F.alias_fns.discard(r)
+        try:
+            paths = E.run(r)
+        finally:
+            F.alias_fns.update(saved)
+        for path in paths:
+            idx = [i for i, e in enumerate(path.events)
+                   if e['k'] == 'panic' and e.get('fn') == fn['path'] and e.get('ln') == t['ln']]
+            if not idx:
+                continue
+            hit += 1
+            before = path.events[:idx[0]]
+            empty = any(e['k'] == 'call' and e['name'] == 'is_empty' and 'RingBuf' in e['callee'] and
+                        const_of(E, path.facts, e['ret']) == 1 for e in before)
+            refilled = any(e['k'] == 'call' and e['name'] in ('push', 'pop') and 'RingBuf' in e['callee'] for e in before)
+            parked = any(e['k'] == 'qop' and loc_endswith(e['queue'], 'send_waiters') and (
+                (e.get('op') == 'is_empty' and const_of(E, path.facts, e['ret']) == 0) or
+                (e.get('op') in ('remove_last', 'peek_last', 'peek_last_mut') and e.get('node') is not None))
+                for e in before)
+            cap = any(e['k'] == 'call' and e['name'] == 'capacity' and 'RingBuf' in e['callee'] and
+                      eq_fact(E, path.facts, e['ret'], ('const', 0)) == 0 for e in before)
+            if not (empty and not refilled and parked and cap):
+                return False
+    return hit > 0
+
+
 def _infeasible_everywhere(C, F, E, cfg, fn, t):
     """an explicit panic site nobody classified: is it unreachable on every path of every function that exposes it
     (the function itself when it is public API / a trait method / uncalled, else its callers, transitively)?"""
@@ -545,6 +597,9 @@ def panic_sites(C, R, F, E, roles, cfg):
                 cat = 'unreachable by the refill invariant (C09.R2): with capacity > 0 no sender stays parked while the buffer is empty'
             elif p.endswith('DropBomb as std::ops::Drop>::drop'):
                 cat = 'by design: a panicking comparison aborts'
+            elif fn.get('impl_adt') == 'channel::mpmc::ChannelState' and _excluded_by_refill(C, F, E, cfg, fn, t):
+                cat = ('unreachable by the refill invariant (C09.R2): every path to it has seen the buffer empty, a sender '
+                       'parked and capacity != 0 (any spelling of the assertion)')
             if cat is None and _infeasible_everywhere(C, F, E, cfg, fn, t):
                 cat = 'unreachable: no path from any function that exposes it reaches this panic (checked on every calling context)'
             if cat is None:
